@@ -28,3 +28,4 @@ PROP = {
                                  "prefactors are kept within 1e-32..1e32 and never 0"],
 }
 PROP["level_text"] += ' Integrate is also judged in long double with prefactors as large (small) as the table allows; regular grids with local refinement are part of the tables.'
+PROP["assumptions"] = PROP.get("assumptions", []) + ["extreme prefactors are chosen such that prefactor x max|f| x max(|x|, width) is representable: Integrate forms prefactor x f x x before taking the difference of its two stem-function values"]
